@@ -90,7 +90,8 @@ def _(c):
     main.step('forall(lambda m, s: implies((m < head(current_index) or m >= current_index), c_results[m, s] == head(c_results[m, s])))',
               label='earlier-rows-frozen')
     main.step('current_index == num_timepoints or c_timepoints[current_index] > current_time', label='all-due-rows-recorded')
-    main.step('rule_step == ite(%s, 0, 1)' % FIRE, label='rule-step-flag')
+    # C09: a dt / ode rule runs exactly once per elapsed delta step: the next pass is a rule step iff the delta clock fired in this one
+    main.step('rule_step == ite(%s, 1, 0)' % STEPPED, label='rule-step-exactly-when-the-delta-clock-fires')
     rec = c.loop(1)
     rec.invariant('entry(current_index, 1) <= current_index and current_index <= num_timepoints', label='index')
     rec.invariant('forall(lambda m, s: implies(entry(current_index, 1) <= m and m < current_index and 0 <= s and s < num_species, '
